@@ -201,6 +201,8 @@ def correspondence(rep, ctx, ncases=None, oracle_kind="lean"):
                               {"call": "decay", "contents": case[0], "unit": case[1], "t": case[2], "tu": case[3],
                                "how_to_replay": "./check C01 --replay <this file>"}, True)
     bad += all_single_block(rep, ctx, gen)
+    from decaylib import mutated_object_block
+    bad += mutated_object_block(rep, ctx, "c01/mutated-object", hp_too=False)
     bad += subset_block(rep, ctx, gen)
     if oracle_kind == "lean":
         import synthetic
